@@ -37,13 +37,17 @@ let c15_opts f =
 
 let split_on c s = List.filter (fun x -> x <> "") (String.split_on_char c s)
 
-(* epsilon band of the comparison: 1e-6 token = 1000 scaled units around the decision threshold *)
-let band = 1000
+(* epsilon band of the comparison (float64 vs exact arithmetic), in scaled units (1e-9 token) around the
+   decision threshold margin = 0: at most 1e-6 token; narrower for small bursts, where the float64 error of a
+   history (<= 150 operations, each with relative error 2^-52 on magnitudes <= burst) stays below
+   burst * 1e-13 token = burst/10^4 units (a 10x safety factor is applied) *)
+let band_of burst = min 1000 (max 1 (burst / 1000))
 
 let run_limiter (parts : string list) : string =
   let f = fields parts in
   let o = set_default (c15_opts f) in
   let ops = split_on ',' (fld f "ops") in
+  let band = band_of (int_of_z o.o_burst) in
   let t = ref 0 in
   let tbl = ref [] in
   let tainted = ref [] in
@@ -57,7 +61,7 @@ let run_limiter (parts : string list) : string =
       let e = EvAllow (z_of_int !t, c15_addr a, z_of_int (int_of_string n)) in
       hist := e :: !hist;
       let k = mask_addr o (c15_addr a) in
-      let inband = (match step_margin o !tbl e with Some m -> abs (int_of_z m) <= band | None -> false) in
+      let inband = (match step_margin o !tbl e with Some m -> abs (int_of_z m) < band | None -> false) in
       let (tbl', d) = lim_step o !tbl e in
       tbl := tbl';
       let is_tainted = List.exists (fun k' -> addr_eqb k k') !tainted in
